@@ -59,11 +59,21 @@ func (g *c16Gen) tree(depth int, comps []string) []*c16El {
 	}
 	return out
 }
+// a conditional include of a missing file at the very end of the page: with boom set the render fails
+// after every v-once element of the page has been reached
+const c16Trailer = `<template v-if="boom"><template include="missing.vuego"></template></template>`
+
 func c16Src(file string, es []*c16El, real bool) string {
+	if file == "page.vuego" {
+		return c16SrcInner(file, es, real) + c16Trailer
+	}
+	return c16SrcInner(file, es, real)
+}
+func c16SrcInner(file string, es []*c16El, real bool) string {
 	var sb strings.Builder
 	for _, e := range es {
 		if e.include != "" {
-			fmt.Fprintf(&sb, `<template include="%s">%s</template>`, e.include, c16Src(file, e.kids, real))
+			fmt.Fprintf(&sb, `<template include="%s">%s</template>`, e.include, c16SrcInner(file, e.kids, real))
 			continue
 		}
 		if e.slot {
@@ -81,7 +91,7 @@ func c16Src(file string, es []*c16El, real bool) string {
 		if e.loop > 0 {
 			attrs += fmt.Sprintf(` v-for="q in l%d"`, e.loop)
 		}
-		fmt.Fprintf(&sb, "<div%s>%s</div>", attrs, c16Src(file, e.kids, real))
+		fmt.Fprintf(&sb, "<div%s>%s</div>", attrs, c16SrcInner(file, e.kids, real))
 	}
 	return sb.String()
 }
@@ -178,8 +188,11 @@ func (p c16Prog) fs(real bool) fstest.MapFS {
 }
 
 func c16Render(eng any, p c16Prog, entry string, real bool) (string, error) {
+	return c16RenderB(eng, p, entry, real, false)
+}
+func c16RenderB(eng any, p c16Prog, entry string, real bool, boom bool) (string, error) {
 	data := func() map[string]any {
-		return map[string]any{"link": "P", "l2": []any{1, 2}, "l3": []any{1, 2, 3}}
+		return map[string]any{"link": "P", "l2": []any{1, 2}, "l3": []any{1, 2, 3}, "boom": boom}
 	}
 	var buf bytes.Buffer
 	var err error
@@ -210,7 +223,7 @@ func init() { streams["C16"] = runC16 }
 func runC16(r *Run) {
 	r.Imports = []string{"Model.Once"}
 	r.Rule("programs with v-once elements at top level, nested in one another, inside v-for over 2-3 items, inside components included 1..n times (also from loops and from other components), in two different components and in a layout; " +
-		"every entry point (Vue.Render, Vue.RenderFragment, Load().Render and RenderFile with and without a layout, RenderString); each program rendered twice on one engine; " +
+		"every entry point (Vue.Render, Vue.RenderFragment, Load().Render and RenderFile with and without a layout, RenderString); each program rendered twice on one engine, then once more after a render of the same page that fails at its very end; " +
 		"the expanded forest comes from rendering the same program with v-once renamed to a marker attribute; non-trivial: some marked element is instantiated >= 2 times or >= 2 marked elements exist")
 	r.Assume("the keys written by the harness (file#element, prefixed by the layout link) identify source elements; the model is told nothing about the implementation's own id scheme")
 	rr := r.Rng
@@ -273,7 +286,16 @@ func runC16(r *Run) {
 		for name := range p.files {
 			files[name] = string(p.fs(true)[name].Data)
 		}
-		for round := 1; round <= 2; round++ {
+		for round := 1; round <= 3; round++ {
+			if round == 3 {
+				// a render of the same page that fails after every v-once element was reached; what it saw must not
+				// be remembered by the next render (nor by the first render of the next program: ids repeat)
+				if _, ferr := c16RenderB(eng, p, entry, true, true); ferr == nil {
+					r.Count("failing-render-did-not-fail")
+				} else {
+					r.Count("failing-render-between-rounds")
+				}
+			}
 			out, err := c16Render(eng, p, entry, true)
 			var obs Obs
 			if err != nil {
